@@ -1702,10 +1702,12 @@ func preopenPath(fsc *sys.FSContext, fd int32) (string, experimentalsys.Errno) {
 		return "", experimentalsys.EBADF // closed
 	} else if !f.IsPreopen {
 		return "", experimentalsys.EBADF
-	} else if isDir, errno := f.File.IsDir(); errno != 0 || !isDir {
+	} else if isDir, errno := f.File.IsDir(); errno != 0 {
+		return "", errno
+	} else if !isDir {
 		// In wasip1, only directories can be returned by fd_prestat_get as
 		// there are no prestat types defined for files or sockets.
-		return "", errno
+		return "", experimentalsys.EBADF
 	} else {
 		return f.Name, 0
 	}
